@@ -3,9 +3,10 @@ from gen import Gen, NAMES
 from seqdiff import run_seq
 from seqprop import coverage, replay_file, corpus, audit
 
-LEVEL = "translation_validation"
+LEVEL = "proof"
 COQ_TARGETS = ("props/C18.vo",)
-THEOREMS = ['C18_filter_verdicts_partial', 'C18_assignment_on_create_partial', 'C18_filtered_form_stable_partial',
+THEOREMS = ['C18_compaction_acts_as_the_verdict_says', 'C18_compaction_touches_only_its_keyspace', 'C18_other_maintenance_never_filters',
+            'C18_filter_verdicts_partial', 'C18_assignment_on_create_partial', 'C18_filtered_form_stable_partial',
             'C18_stays_filtered_refuted']
 RULE = ("2-3 keyspaces of which one or two have a filter assigned by name (keep / remove / replace decided from the first key "
         "byte), random programs with rotate/step/drain/major and reopen; results compared between implementation, model and "
@@ -14,13 +15,16 @@ RULE = ("2-3 keyspaces of which one or two have a filter assigned by name (keep 
 
 FILTERS = [{"alpha": "r61"}, {"beta": "r62,p61:ff"}, {"alpha": "p62:-", "gamma": "r7a"}, {"alpha": "r61,r62,p63:aabb"}]
 
+# keyspace configurations drawn per keyspace: standard, key-value separation (threshold 1 / 8 bytes), FIFO with a limit that never evicts
+CONFIGS = ["", "", "blob=8", "fifo=4000000000", "blob=1"]
+
 
 def programs(seed, n, nops):
     out = []
     for i in range(n):
         mode = ["plain", "plain", "sw", "occ"][i % 4]
         g = Gen(seed * 100207 + i, mode=mode, nks=2 + i % 2, filters=FILTERS[i % len(FILTERS)],
-                sealing=(2 if i >= n - max(12, n // 12) else 0),
+                sealing=(2 if i >= n - max(12, n // 12) else 0), configs=CONFIGS,
                 weights=dict(reopen=1.5, snap=0.5, it=0, tx=0, txop=0, gc=0.5, ks=0.2, delks=0, ingest=1, clear=0.5,
                              major=4, rotate=5, step=5, put=10, delete=3, batch=2, get=4, scan=3, misc=1))
         # strategy-driven merges (which would apply the filter to an unpredictable subset of tables) need >= 4 L0 tables:
